@@ -15,6 +15,7 @@ import (
 	"go/token"
 	"os"
 	"strconv"
+	"strings"
 )
 
 type mutation struct {
@@ -26,6 +27,7 @@ type mutation struct {
 func main() {
 	list := flag.Bool("list", false, "")
 	apply := flag.Int("apply", -1, "")
+	ops := flag.String("ops", "classic", "classic: operator / literal / condition / deleted-statement mutants; returns: deleted early returns and 'return err' -> 'return nil'")
 	fnFilter := flag.String("funcs", "", "comma-free regexp-less filter: only functions whose name contains one of these |-separated substrings")
 	flag.Parse()
 	path := flag.Arg(0)
@@ -53,7 +55,11 @@ func main() {
 		if !ok || fd.Body == nil || !want(fd.Name.Name) {
 			continue
 		}
-		collect(fd.Body, add)
+		if *ops == "returns" {
+			collectReturns(fd.Body, add)
+		} else {
+			collect(fd.Body, add)
+		}
 	}
 	if *list {
 		for i, m := range muts {
@@ -130,6 +136,38 @@ func collect(body *ast.BlockStmt, add func(token.Pos, string, func())) {
 					if st.Tok != token.DEFINE {
 						add(st.Pos(), "delete assignment", func() { x.List[i] = &ast.EmptyStmt{Semicolon: st.Pos()} })
 					}
+				}
+			}
+		}
+		return true
+	})
+}
+
+// collectReturns: the "forgot the early return" and "swallowed the error"
+// family - an early bare return deleted (execution continues past the
+// guard), a returned error value replaced by nil.
+func collectReturns(body *ast.BlockStmt, add func(token.Pos, string, func())) {
+	ast.Inspect(body, func(n ast.Node) bool {
+		bs, ok := n.(*ast.BlockStmt)
+		if !ok {
+			return true
+		}
+		for i, st := range bs.List {
+			rs, ok := st.(*ast.ReturnStmt)
+			if !ok {
+				continue
+			}
+			bs, i, rs := bs, i, rs
+			if len(rs.Results) == 0 && bs != body {
+				add(rs.Pos(), "delete early return", func() { bs.List[i] = &ast.EmptyStmt{Semicolon: rs.Pos()} })
+			}
+			for k, res := range rs.Results {
+				k := k
+				if id, ok := res.(*ast.Ident); ok && (id.Name == "err" || strings.HasSuffix(id.Name, "Err")) {
+					add(res.Pos(), "return "+id.Name+" -> nil", func() { rs.Results[k] = ast.NewIdent("nil") })
+				}
+				if sel, ok := res.(*ast.SelectorExpr); ok && sel.Sel.Name == "err" {
+					add(res.Pos(), "return x.err -> nil", func() { rs.Results[k] = ast.NewIdent("nil") })
 				}
 			}
 		}
